@@ -650,6 +650,11 @@ func genStubOrigin(r *Run, g *originGen) *stubOrigin {
 	for i := 0; i < nAudioSame; i++ {
 		addAudio(lead, baseSec)
 	}
+	// the video track need not be the first one the container lists (init section / PMT order)
+	if hasVideo && len(lead.tracks) > 1 && T.Chance(1, 3) {
+		k := T.Range(1, len(lead.tracks)-1)
+		lead.tracks[0], lead.tracks[k] = lead.tracks[k], lead.tracks[0]
+	}
 	for i := 0; i < nRend; i++ {
 		rc := "fmp4"
 		if tsRend {
